@@ -149,7 +149,7 @@ def extract(ck):
 def run(ck):
     import numpy
     qr = import_quantarhei()
-    from quantarhei import (Molecule, Aggregate, TimeAxis, CorrelationFunction, energy_units, eigenbasis_of, ReducedDensityMatrix,
+    from quantarhei import (Hamiltonian, Molecule, Aggregate, TimeAxis, CorrelationFunction, energy_units, eigenbasis_of, ReducedDensityMatrix,
                             StateVector, convert, Manager)
     from quantarhei.qm import (ReducedDensityMatrixPropagator, StateVectorPropagator, RedfieldRateMatrix, EvolutionSuperOperator,
                                PureDephasing)
@@ -264,6 +264,7 @@ def run(ck):
         mgr = Manager()
         sysinp = {"sites": n, "mult": mult, "couplings_cm": {("%d-%d" % k): v for k, v in cs.items()}, "cutoff_cm": cut_cm}
         tensors, props, first, hist = {}, {}, {}, []
+        held = []               # evolutions handed out by earlier propagate() calls, with a copy of their values at that time
         hprop = None
         lines.append("reset"); recs.append(None)
         ncalls = rng.randint(10, 16)
@@ -290,6 +291,8 @@ def run(ck):
                 gam[i_, j_] = gam[j_, i_] = rng.randint(1, 6) / 1024.0
         pdephs = {"Gaussian": PureDephasing(drates=gam.copy(), dtype="Gaussian"), "Lorentzian": PureDephasing(drates=gam.copy(), dtype="Lorentzian")}
         inputs["pd_gauss"] = pdephs["Gaussian"]; inputs["pd_lorentz"] = pdephs["Lorentzian"]
+        # a Hamiltonian written down by hand, without rotating-wave blocks
+        inputs["ham_plain"] = Hamiltonian(data=numpy.array(ham._data).copy())
         base = snapshot(inputs)
 
         def call_tensor(tk, in_units, recalc=True):
@@ -344,6 +347,9 @@ def run(ck):
         rest = plan[1:]
         rng.shuffle(rest)
         plan = [plan[0]] + rest
+        if s % 2 == 0:
+            # a plain Hamiltonian: propagation, an attempt to build a hierarchy propagator on it (refused: no rotating-wave blocks), propagation
+            plan += [("propplain",), ("heomplain",), ("propplain",)]
         if s % 4 == 0:
             plan += [("heom",), ("heomfree",), ("heom",), ("heomfree",)]     # the optional mode of the hierarchy run in between ordinary runs
         for ic in range(len(plan)):
@@ -408,6 +414,13 @@ def run(ck):
                             else:
                                 rt = pr.propagate(rho0, Nref=k) if k > 1 else pr.propagate(rho0)
                         res = numpy.array(rt.data).ravel()
+                        for (h_rt, h_val, h_ic) in held:
+                            if h_rt is rt or not numpy.array_equal(numpy.array(h_rt.data).ravel(), h_val):
+                                ck.fail("repeat:prop:earlier-result-changed", "the evolution returned by an earlier propagate() (call %d) was changed by a later "
+                                        "propagate() on the same propagator: that result is no longer the result of its inputs" % h_ic,
+                                        dict(sysinp, history=hist + [{k_: v_ for k_, v_ in rec.items() if k_ not in ("sysinp", "undeclared")}]))
+                                break
+                        held.append((rt, res.copy(), ic))
                         eff = pr.Nref
                         with quiet():
                             pf = ReducedDensityMatrixPropagator(ta, hR, RT)
@@ -495,10 +508,35 @@ def run(ck):
                             Uf.calculate()
                         res = numpy.array(U.data).ravel()
                         dfresh = float(numpy.abs(res - numpy.array(Uf.data).ravel()).max())
+                        # the same object given no / the other / the first pure dephasing in turn and calculated again: each time the result
+                        # of a new object with these settings
+                        okind = "Lorentzian" if plan[ic][1] == "Gaussian" else "Gaussian"
+                        rec["then_on_the_same_object"] = "set_PureDephasing(None | %s | %s), calculate() after each" % (okind, plan[ic][1])
+                        for setting in (None, okind, None, plan[ic][1]):
+                            with quiet():
+                                U.set_PureDephasing(None if setting is None else pdephs[setting])
+                                U.calculate()
+                                Ug = EvolutionSuperOperator(t2, hR, RT, pdeph=None if setting is None else PureDephasing(drates=gam.copy(), dtype=setting))
+                                Ug.set_dense_dt(4)
+                                Ug.calculate()
+                            dfresh = max(dfresh, float(numpy.abs(numpy.array(U.data) - numpy.array(Ug.data)).max()))
                         if dfresh > 1e-10:
                             rec["fresh_diff"] = dfresh
                         key = ("esodeph", plan[ic][1])
                         line = "pure 5"
+                elif op == "propplain":
+                    with quiet():
+                        rt = ReducedDensityMatrixPropagator(ta, inputs["ham_plain"]).propagate(rho0)
+                    res = numpy.array(rt.data).ravel()
+                    key = ("propplain",)
+                elif op == "heomplain":
+                    from quantarhei.qm.liouvillespace.heom import KTHierarchy, KTHierarchyPropagator
+                    try:
+                        with quiet():
+                            KTHierarchyPropagator(ta, KTHierarchy(inputs["ham_plain"], sbi, 2))
+                        rec["hierarchy_propagator"] = "built"
+                    except Exception as e_:
+                        rec["hierarchy_propagator"] = "refused: %r" % (e_,)
                 elif op in ("heom", "heomfree"):
                     if hprop is None:
                         with quiet():
